@@ -467,13 +467,113 @@ static void runKeepRule(vf::Report &rep)
     rep.sample("{\"part\":\"keep\",\"goals\":2}");
 }
 
+// the "all of" half in the bounds-rejection branch (large cost bound, several start/goal pairs): a candidate of the underlying uniform
+// sampler that lies inside ANY spheroid (by the harness's own focal sums) must be returned at once, one that lies in none must not.
+// The candidate is scripted through the uniform answers: RealVectorStateSampler draws one U01 per coordinate.
+static void runAcceptRule(vf::Report &rep)
+{
+    for (int dim = 2; dim <= 3; ++dim)
+        for (int order = 0; order < 2; ++order)
+        {
+            auto space = std::make_shared<ob::RealVectorStateSpace>(dim);
+            ob::RealVectorBounds b(dim);
+            b.setLow(-1);
+            b.setHigh(1);
+            b.setLow(0, -10);
+            b.setHigh(0, 10);
+            space->setBounds(b);
+            auto si = std::make_shared<ob::SpaceInformation>(space);
+            si->setStateValidityChecker([](const ob::State *) { return true; });
+            si->setup();
+            auto pdef = std::make_shared<ob::ProblemDefinition>(si);
+            Vec S(dim, 0.0), GA(dim, 0.0), GB(dim, 0.0);
+            S[0] = -9;
+            GA[0] = 9;
+            GB[0] = -8;
+            auto put = [&](ob::State *st, const Vec &v) {
+                for (int i = 0; i < dim; ++i)
+                    st->as<ob::RealVectorStateSpace::StateType>()->values[i] = v[i];
+            };
+            ob::ScopedState<> st(space);
+            put(st.get(), S);
+            pdef->addStartState(st);
+            auto gs = std::make_shared<ob::GoalStates>(si);
+            for (const Vec *g : {order ? &GB : &GA, order ? &GA : &GB})
+            {
+                put(st.get(), *g);
+                gs->addState(st);
+            }
+            pdef->setGoal(gs);
+            pdef->setOptimizationObjective(std::make_shared<ob::PathLengthOptimizationObjective>(si));
+            const double C = 19.0;
+            std::vector<double> xs = {-9.9, -9.7, -9.0, -5.0, 0.0, 2.5, 5.0, 9.0, 9.4, 9.9}, ys = {-0.9, 0.0, 0.9};
+            for (double x : xs)
+                for (double y : ys)
+                    for (double z : (dim == 3 ? std::vector<double>{0.0, 0.9} : std::vector<double>{0.0}))
+                    {
+                        Vec cand(dim, 0.0);
+                        cand[0] = x;
+                        cand[1] = y;
+                        if (dim == 3)
+                            cand[2] = z;
+                        double fa = norm(S, cand) + norm(cand, GA), fb = norm(S, cand) + norm(cand, GB);
+                        if (std::fabs(fa - C) < 1e-6 || std::fabs(fb - C) < 1e-6)
+                            continue;  // on a surface: rounding decides
+                        int Kin = (fa < C) + (fb < C);
+                        struct Script : vc::Oracle
+                        {
+                            std::vector<double> first;
+                            size_t k = 0;
+                            double u01(ompl::RNG *r) override
+                            {
+                                if (k < first.size())
+                                {
+                                    take(vc::U01, 1);
+                                    return first[k++];
+                                }
+                                return vc::Oracle::u01(r);
+                            }
+                        } o;
+                        for (int i = 0; i < dim; ++i)
+                            o.first.push_back((cand[i] - b.low[i]) / (b.high[i] - b.low[i]));
+                        vc::Install inst(o);
+                        ob::PathLengthDirectInfSampler smp(pdef, 100);
+                        ob::State *out = space->allocState();
+                        bool ok = smp.sampleUniform(out, ob::Cost(C));
+                        Vec got(dim);
+                        for (int i = 0; i < dim; ++i)
+                            got[i] = out->as<ob::RealVectorStateSpace::StateType>()->values[i];
+                        space->freeState(out);
+                        bool same = ok && norm(got, cand) < 1e-9;
+                        rep.evaluations++;
+                        rep.transitions++;
+                        vf::Hash h;
+                        h.add(dim);
+                        h.add(order);
+                        h.addd(x);
+                        h.addd(y);
+                        h.addd(z);
+                        rep.nontrivial.insert(h.h);
+                        rep.outcomes.insert((uint64_t)(same + 2 * Kin + 8 * (fa < C)));
+                        std::string rj = "{\"part\":\"accept\"}";
+                        if (Kin > 0 && !same)
+                            rep.fail("C15|direct|accept-rule", "uniform candidate " + vstr(cand) + " lies inside " + std::to_string(Kin) + " of the 2 spheroids (focal sums " + vf::jnum(fa) + ", " + vf::jnum(fb) + " < " +
+                                                                   vf::jnum(C) + ", goal order " + std::to_string(order) + ") but the sampler " + (ok ? "returned " + vstr(got) : "failed"), rj);
+                        if (Kin == 0 && same)
+                            rep.fail("C15|direct|accept-rule-outside", "uniform candidate " + vstr(cand) + " lies outside every spheroid but was returned", rj);
+                    }
+            rep.states++;
+        }
+    rep.sample("{\"part\":\"accept\"}");
+}
+
 int main(int argc, char **argv)
 {
     ompl::msg::setLogLevel(ompl::msg::LOG_NONE);
     vf::Harness H;
     H.property = "C15";
     H.jobs = [](const vf::Args &a) {
-        std::vector<std::string> j{"phs", "keep"};
+        std::vector<std::string> j{"phs", "keep", "accept"};
         for (const char *sp : {"R2", "R3", "R4", "SE2", "SE3"})
             for (const char *sm : {"direct", "rejection"})
                 for (const char *sg : {"1x1", "1x2", "2x2"})
@@ -498,6 +598,8 @@ int main(int argc, char **argv)
         }
         else if (job == "keep")
             runKeepRule(rep);
+        else if (job == "accept")
+            runAcceptRule(rep);
         else
         {
             SCfg c;
@@ -567,10 +669,13 @@ int main(int argc, char **argv)
                 c.f2.push_back(x.d());
             checkPhs(c, fail, nullptr);
         }
-        else if (part == "keep")
+        else if (part == "keep" || part == "accept")
         {
             vf::Report r;
-            runKeepRule(r);
+            if (part == "keep")
+                runKeepRule(r);
+            else
+                runAcceptRule(r);
             for (auto &f : r.failures)
                 fail(f.key, f.what);
         }
